@@ -21,6 +21,7 @@ fn main() {
     let code = match sub {
         "graph" => graph::run(&rest),
         "tsort" => graph::run_tsort(&rest),
+        "graph-record" => graph::run_record(&rest),
         "pathnorm" => pathnorm::run(&rest),
         "pred" => pred::run(&rest),
         "subtype" => subty::run(&rest),
